@@ -261,3 +261,48 @@ pub fn schedsoup(g: &mut Gen, far_rearm: bool) -> String {
     s.push_str("fn dsp(){\n    x\n}\n");
     s
 }
+
+/// Programs in which closures are created inside frames that return unit: helper functions that
+/// end in a call of a unit closure, called from dsp as statements, and self-re-arming scheduled
+/// tasks.  Returns the source and whether it needs the scheduler.
+pub fn unit_closures(g: &mut Gen) -> (String, bool) {
+    let mut s = String::from("let acc = 0.0\n");
+    let nb = g.int(1, 3) as usize;
+    let upd = |g: &mut Gen, v: &str| -> String {
+        match g.below(4) {
+            0 => format!("acc = acc + {v}"),
+            1 => format!("acc = acc * 0.5 + {v}"),
+            2 => format!("acc = {v} - acc * 0.25"),
+            _ => format!("acc = acc + {v} * {}.0", g.int(1, 5)),
+        }
+    };
+    for i in 0..nb {
+        s.push_str(&format!("fn bump{i}(k){{\n"));
+        let nf = g.int(1, 2);
+        for j in 0..nf {
+            if g.coin() {
+                s.push_str(&format!("  let f{j} = | | {{ {} }}\n  f{j}()\n", upd(g, "k")));
+            } else {
+                s.push_str(&format!("  let f{j} = |x| {{ {} }}\n  f{j}(k + {}.0)\n", upd(g, "x"), g.int(0, 3)));
+            }
+        }
+        s.push_str("}\n");
+    }
+    let sched = g.bool(1, 2);
+    if sched {
+        s.push_str("fn start(){\n  let k = 1.0\n  letrec gen = | |{\n");
+        s.push_str(&format!("     let f = | | {{ {} }}\n     f()\n", upd(g, "k")));
+        if g.coin() {
+            s.push_str(&format!("     bump{}(k)\n", g.usize_below(nb)));
+        }
+        s.push_str(&format!("     gen@(now+{}.0)\n  }}\n  gen@1.0\n}}\nstart()\n", g.int(1, 3)));
+    }
+    s.push_str("fn dsp(){\n");
+    let nc = g.int(if sched { 0 } else { 1 }, 3);
+    for _ in 0..nc {
+        let arg = *g.pick(&["1.0", "now", "acc * 0.5", "2.5"]);
+        s.push_str(&format!("  bump{}({arg})\n", g.usize_below(nb)));
+    }
+    s.push_str("  acc\n}\n");
+    (s, sched)
+}
